@@ -424,3 +424,21 @@ func verifC05(n Name) (base []byte, parts [][]byte, b2 []byte) {
 //@     invariant ref(r.result.Values) == old(ref(r.result.Values)) || fresh(r.result.Values)
 //@     invariant r.result.configPos == old(r.result.configPos) || fresh(r.result.configPos)
 //@     invariant unchanged(r, r.q, old(r.q), r.interns, r.units, r.result.configPos, old(r.result.configPos), r.result.Values, old(r.result.Values), heap(Config), heap(byte))
+
+// The unit's statistical assumption is the exact model precisely when the
+// metadata stored under the normalised unit says assume=exact; otherwise
+// nothing is assumed (C14: each cell is summarised under its unit's assumption).
+//@ pure func unitMeta(m UnitMetadataMap, unit string, key string) *UnitMetadata =
+//@     has(m, mkstruct(UnitMetadataKey, benchunit.Tidy_1(1.0, unit), key)) ? m[mkstruct(UnitMetadataKey, benchunit.Tidy_1(1.0, unit), key)] : nil
+
+//@ func (m UnitMetadataMap) GetAssumption(unit string) (a benchmath.Assumption)
+//@   props C04 C14
+//@   ensures unitMeta(m, unit, "assume") != nil && unitMeta(m, unit, "assume").Value == "exact" ==> a == iface(benchmath.AssumeExact)
+//@   ensures !(unitMeta(m, unit, "assume") != nil && unitMeta(m, unit, "assume").Value == "exact") ==> a == iface(benchmath.AssumeNothing)
+
+//@ func (m UnitMetadataMap) GetBetter(unit string) (b int)
+//@   props C04
+//@   ensures unitMeta(m, unit, "better") != nil && unitMeta(m, unit, "better").Value == "higher" ==> b == 1
+//@   ensures unitMeta(m, unit, "better") != nil && unitMeta(m, unit, "better").Value == "lower" ==> b == -1
+//@   ensures unitMeta(m, unit, "better") != nil && unitMeta(m, unit, "better").Value != "higher" && unitMeta(m, unit, "better").Value != "lower" ==> b == 0
+//@   ensures unitMeta(m, unit, "better") == nil ==> b == ((unit == "ns/op" || unit == "sec/op" || unit == "B/op" || unit == "allocs/op") ? -1 : ((unit == "MB/s" || unit == "B/s") ? 1 : 0))
